@@ -646,6 +646,63 @@ func c15ErrorWhole(c *Ctx) {
 			if first == nil {
 				continue
 			}
+			// only where the parts go into ANOTHER JSON-RPC answer: the loaded code / message is handed to a library
+			// function from which a constructor of an error answer is reached (a client turning the answer into a Go
+			// error reads code and message too, and forwards nothing)
+			rebuilds := false
+			errT := c.P.RootNamed("JSONRPCError")
+			makes := func(f *ssa.Function) bool {
+				found := false
+				scope := []*ssa.Function{f}
+				for g := range c.ReachSync(f) {
+					scope = append(scope, g)
+				}
+				for _, g := range scope {
+					if !c.P.IsLib(g) || errT == nil {
+						continue
+					}
+					if g.Signature.Results().Len() >= 1 {
+						if pt, ok := g.Signature.Results().At(0).Type().(*types.Pointer); ok && types.Identical(pt.Elem(), errT) {
+							found = true
+						}
+					}
+					ir.EachInstr(g, func(_ *ssa.BasicBlock, _ int, in ssa.Instruction) {
+						if al, ok := in.(*ssa.Alloc); ok {
+							if pt, ok := al.Type().Underlying().(*types.Pointer); ok && types.Identical(pt.Elem(), errT) {
+								found = true
+							}
+						}
+					})
+				}
+				return found
+			}
+			for _, name := range []string{"Code", "Message"} {
+				fa, _ := m[name].(*ssa.FieldAddr)
+				if fa == nil {
+					continue
+				}
+				for _, r := range *fa.Referrers() {
+					ld, ok := r.(*ssa.UnOp)
+					if !ok || ld.Referrers() == nil {
+						continue
+					}
+					for _, u := range *ld.Referrers() {
+						if cl, ok := u.(*ssa.Call); ok {
+							if sc := ir.StaticCallee(cl); sc != nil && c.P.IsLib(sc) && makes(sc) {
+								rebuilds = true
+							}
+						}
+						if st, ok := u.(*ssa.Store); ok {
+							if f2, _, ok := ir.FieldOf(st.Addr); ok && (f2.Name == "Code" || f2.Name == "Message") {
+								rebuilds = true
+							}
+						}
+					}
+				}
+			}
+			if !rebuilds {
+				continue
+			}
 			n++
 			c.R.Check(m["Data"] != nil, "R-error-whole", sprintf("members of the error object %s read in %s", p, fname(fn)), c.Pos(first.Pos()),
 				"Data is read alongside Code / Message",
